@@ -53,7 +53,18 @@ C20_HARNESSES = [H("expr", "expr_d1", args=[1], diff=True)] + [
     H("coro", "coro_return_throws", cxx20=True),
     H("trace", "trace_chain"),
 ]
+C14_EPOLL = [
+    H("ioep", "ksim_conf", args=[4]), H("ioep", "ksim_conf", args=[5], thorough_only=True),
+    H("ioep", "ep_sched", 3, 4, args=[2]), H("ioep", "ep_sched", 3, 4, args=[1]),
+    H("ioep", "ep_stop", 3, 4),
+] + [H("ioep", "ep_timer", 3, 4, args=[m]) for m in (0, 1, 2, 3, 4)] + [
+    H("ioep", "ep_pipe", 3, 4, args=list(a)) for a in ((2, 3, 2, 0), (2, 3, 2, 1), (4, 2, 4, 2), (1, 2, 2, 0), (4, 4, 1, 0))] + [
+    H("ioep", "ep_cancel", 3, 4, args=list(a), **{"cache-bits": 24}) for a in ((0, 2), (1, 2), (2, 2), (0, 0), (1, 0), (2, 0))] + [
+    H("ioep", "ep_cancel_w", 3, 4, args=[m], **{"cache-bits": 24}) for m in (0, 1, 2)] + [
+    H("ioep", "ep_reuse", 3, 4, args=[m], **{"cache-bits": 24}) for m in (0, 1)] + [
+    H("ioep", "ep_fault", 2, 3, args=list(a)) for a in ((0, 0, 1, 5), (0, 0, 0, 5), (0, 1, 1, 5), (0, 1, 0, 5), (1, 0, 1, 5), (1, 0, 0, 5), (1, 1, 1, 5), (1, 1, 0, 5), (0, 0, 1, 9), (1, 0, 1, 32))]
 CHECKS = {
+    "C14": {"harnesses": C14_EPOLL, "deadline": {"quick": 600, "thorough": 3000}},
     "C20": {"harnesses": C20_HARNESSES, "configs": {"quick": ["c17rel", "c20dbg", "c17dbgv", "c20relv"], "thorough": ALL_CONFIGS},
             "header_matrix": True, "deadline": {"quick": 600, "thorough": 3000}},
     "C19": {"harnesses": C19_HARNESSES},
